@@ -484,4 +484,6 @@ func runC09(r *Run) {
 		unmarshalOut(out)
 		r.count("nonascii(not compared with the model)")
 	}
+	// v2 frames carry the block: streaming decode with the ring's end at positions inside the metadata block
+	r.wrapSweep(13, false)
 }
